@@ -77,6 +77,9 @@ Ind(n, u) == IF n = 0 THEN "" ELSE u \o Ind(n - 1, u)
 Balanced(t) == t \notin {"else: ("}   \* texts with an unclosed bracket would swallow the following line
 LineSrc(base, ln, u) == IF ln[2] = "" THEN "\n" ELSE base \o Ind(ln[1], u) \o ln[2] \o "\n"
 LineWant(ln, u) == IF ln[2] = "" THEN "\n" ELSE Ind(ln[1], u) \o ln[2] \o "\n"
+IsCode(ln) == ln[2] # "" /\ ln[2] # "# c"
+RECURSIVE LastCodeLevel(_)
+LastCodeLevel(ls) == IF ls = <<>> THEN 0 ELSE IF IsCode(ls[Len(ls)]) THEN ls[Len(ls)][1] ELSE LastCodeLevel(SubSeq(ls, 1, Len(ls) - 1))
 WithInit == lines = <<>> /\ done = FALSE /\ unit \in 1..Len(Units) /\ outer \in 1..Len(Outer) /\ fol \in FolUse
 WithNext ==
   /\ ~done
@@ -84,7 +87,7 @@ WithNext ==
         /\ \E t \in 1..Len(LineTexts) : \E n \in 0..2 :
              /\ Balanced(LineTexts[t])
              /\ (lines = <<>> => (n = 0 /\ LineTexts[t] # ""))          \* first line defines the block indentation
-             /\ (lines # <<>> /\ n > 0 => n <= lines[Len(lines)][1] + 1 \/ LineTexts[t] = "")
+             /\ (lines # <<>> /\ n > 0 => n <= LastCodeLevel(lines) + 1 \/ LineTexts[t] = "")   \* an indentation level is opened by a code line only
              /\ lines' = Append(lines, <<IF LineTexts[t] = "" THEN 0 ELSE n, LineTexts[t]>>)
         /\ UNCHANGED <<done, unit, outer, fol>>
      \/ /\ lines # <<>> /\ lines[Len(lines)][2] # "" /\ done' = TRUE /\ UNCHANGED <<lines, unit, outer, fol>>
